@@ -10,4 +10,4 @@ class SplineInterpolator(AbstractInterpolator):
     @staticmethod
     def _interpolate(x, y, value):
         f = CubicSpline(x, y)
-        return f(value)
+        return float(f(value))
